@@ -1472,7 +1472,7 @@ def gen_for_block(node, code, codegen):
     to_var = codegen.get_label('for_to')
 
     node.parent_routine.local_vars[step_var] = var_type
-    node.parent_routine.local_vars[step_sign_var] = var_type
+    node.parent_routine.local_vars[step_sign_var] = expr.Type.INTEGER
     node.parent_routine.local_vars[to_var] = var_type
 
     var = node.var.get_base_variable()
@@ -1485,13 +1485,16 @@ def gen_for_block(node, code, codegen):
             ('dupl',),
             ('storel', step_var),
             ('sign',),
-            ('storel', step_sign_var),
         )
+        if var_type != expr.Type.INTEGER:
+            # the sign is kept as an INTEGER (-1, 0 or 1)
+            code.add((f'conv{type_char}%',))
+        code.add(('storel', step_sign_var))
     else:
         code.add(
             (f'push1{type_char}', 1),
             ('storel', step_var),
-            (f'push1{type_char}', 1),
+            ('push1%', 1),
             ('storel', step_sign_var),
         )
     codegen.gen_code_for_node(node.from_expr, code)
@@ -1501,37 +1504,18 @@ def gen_for_block(node, code, codegen):
     gen_code_for_conv(var_type, node.to_expr, code, codegen)
     code.add(('storel', to_var))
 
-    # make sure the range is compatible with the step value (by
-    # checking if (to - from) has the same sign as step value). if
-    # not, skip the loop.
-    code.add(
-        (f'readl{type_char}', to_var),
-        (f'read{scope}{type_char}', var.name),
-        ('sub',),
-        (f'readl{type_char}', step_sign_var),
-        ('mul',),
-        (f'push{type_char}', 0),
-        ('cmp',),
-        ('ge',),
-        ('jz', end_label),
-    )
-
-    # multiply "to" value with the step sign so that we can always use
-    # the same compare instruction
-    code.add(
-        (f'readl{type_char}', step_sign_var),
-        (f'readl{type_char}', to_var),
-        ('mul',),
-        (f'storel', to_var),
-    )
-
+    # the loop continues while the variable has not passed the limit in
+    # the direction of the step. we compare (rather than subtract or
+    # multiply the values) so that no intermediate value can overflow
+    # the type of the loop variable: "cmp" leaves -1, 0 or 1, which is
+    # then multiplied by the sign of the step.
     code.add(('_label', check_label))
     code.add(
         (f'read{scope}{type_char}', var.name),
-        (f'readl{type_char}', step_sign_var),
-        ('mul',),
         (f'readl{type_char}', to_var),
         ('cmp',),
+        ('readl%', step_sign_var),
+        ('mul',),
         ('le',),
         ('jz', end_label),
     )
